@@ -22,7 +22,7 @@ from harness import c14_driver, core, scen
 from harness.gallina import glist, gstr
 
 ID = "C14"
-COQ_TARGETS = ["Determinism.vo", "DeterminismProofs.vo", "CorrC14.vo", "Props/C14.vo"]
+COQ_TARGETS = ["Determinism.vo", "DeterminismProofs.vo", "CorrC14.vo", "DocDeterminism.vo", "DocDeterminismProofs.vo", "Props/C14.vo"]
 PROPS_FILE = "Props/C14.v"
 CORR_IMPORTS = "Base Determinism CorrC14"
 ENTRY = ("cassis.cas.Cas.to_xmi / to_json / _serialize / _find_all_fs / typecheck, cassis.xmi.CasXmiSerializer.serialize, "
